@@ -28,10 +28,11 @@ THEOREMS = [f'Gnpy.Spectrum.{t}' for t in (
     'path_monotone', 'roadm_unchanged', 'fused_unchanged', 'trx_unchanged', 'passive_elements_figures', 'edfa_only_osnr',
     'fiber_only_nli', 'raman_monotone', 'multiband_only_osnr', 'applyElems_monotone')]
 RULE = ('cases from one PRNG: (a) "path": request.propagate on a designed network (shipped examples edfa, mesh, fused, '
-        'multiband, raman[, openroadm in thorough]; generated ROADM chains with 1-3 spans per hop, fused splices, connector '
-        'and padding losses, in/out VOAs, tilt, every stock amplifier variety incl. dual-stage and OpenROADM, Raman fibres; '
+        'multiband, raman[, openroadm in thorough]; generated ROADM chains with 1-3 spans per hop (about a third of the spans with negative dispersion: single '
+        'value, per-frequency table or value+slope), fused splices, connector and padding losses, in/out VOAs, tilt, every stock amplifier variety incl. dual-stage and OpenROADM, Raman fibres; '
         'gn_model_analytic, ggn_spectrally_separated in thorough) with a uniform grid or a mixed-rate carrier list of '
-        '1-40 (96) channels; (b) "shuffle": the elements of such a path in random order on a spectrum whose channels '
+        '1-40 (96) channels; (a2) multiband ROADM chains (5 stock multiband varieties or auto-designed) of 3-5 amplifiers per hop whose per-band '
+        'amplifiers are listed C,L or L,C, launched with 3-6 dB between the L and the C partition; (b) "shuffle": the elements of such a path in random order on a spectrum whose channels '
         'already carry random ASE and NLI shares; (c) malformed: amplifier / multiband amplifier called with no channel '
         'in its band (ValueError). Non-trivial: >= 1 fibre, >= 1 amplifier and >= 1 passive element (ROADM/fused) were '
         'crossed; distinct = canonical JSON of the case')
@@ -293,12 +294,25 @@ def run_path(case, drv):
         and passive > 0
     res.stats.update({f'{case["kind"]}_cases': 1, 'elements_crossed': len(rec.calls), 'channels': len(f0),
                       'channel_element_pairs_monitored': len(f0) * len(rec.calls),
-                      f'net_{case["net"] if isinstance(case["net"], str) else "generated"}': 1, 'sim_' + str(case['sim']): 1})
+                      f'net_{case["net"] if isinstance(case["net"], str) else ("mbchain" if "mbhops" in case["net"] else "generated")}': 1, 'sim_' + str(case['sim']): 1})
     for k in set(kinds):
         res.stats[f'elem_{k}'] += kinds.count(k)
     for call in rec.calls:
         if call.kind == 'Edfa':
             res.stats['edfa_' + str(call.el.params.type_def)] += 1
+        if call.kind == 'Fiber' and np.any(np.asarray(call.el.params.dispersion) < 0):
+            res.stats['fibre_negative_dispersion'] += 1
+        if call.kind == 'Multiband_amplifier':
+            fm = [a.params.bands[0]['f_min'] for a in call.el.amplifiers.values()]
+            res.stats['multiband_L_listed_first' if fm == sorted(fm) and len(fm) > 1 else 'multiband_C_listed_first'] += 1
+            if call.before is not None and len(call.before['a']):
+                res.stats['multiband_with_accumulated_ase'] += int(np.max(call.before['a']) > 0)
+    # no noise contribution may be negative (guard of the theorems; a negative NLI would hand power back to the signal)
+    for kind, (p0, s0, a0, n0), arg, _, uid in rec.op_events:
+        if kind in ('addNli', 'addAse') and np.any(arg < 0):
+            i = int(np.nonzero(arg < 0)[0][0])
+            res.fail(f'negative-noise: {kind} inside {uid!r} was given a negative power for channel {i} ({arg[i]!r} W)')
+            break
     # every attenuation/gain call (connector, padding, VOA, fibre loss, gain) leaves the shares bit-identical
     for kind, (p0, s0, a0, n0), arg, (p1, s1, a1, n1), uid in rec.op_events:
         if kind in ('attLin', 'attDb', 'gainLin', 'gainDb'):
@@ -346,7 +360,7 @@ def shrink_candidates(case):
             c = copy.deepcopy(case)
             c['nch'] = max(1, case['nch'] // 2)
             yield c
-        if not isinstance(case['net'], str):
+        if not isinstance(case['net'], str) and 'desc' in case['net']:
             d = case['net']['desc']
             for h in range(len(d['hops'])):
                 if len(d['hops'][h]) > 1:
